@@ -120,12 +120,13 @@ NAME_CLASSES = [
     ("backtick", "a`b"), ("double-backtick", "a``b"), ("squote", "a'b"), ("backslash", "a\\b"), ("comment-dash", "a--b"),
     ("comment-open", "a/*b"), ("qmark", "a?b"), ("percent-s", "a%sb"), ("dollar", "a$1"), ("unicode", "naïve_列"),
     ("non-bmp", "t\U0001F600"), ("digit-start", "1abc"), ("semicolon", "a;b"), ("paren", "a(b)"), ("comma", "a,b"),
-    ("bracket", "a[b]"), ("only-dquote", '"'), ("only-backtick", "`"), ("trailing-dquote", 'ab"'), ("newline", "a\nb"),
+    ("bracket", "a[b]"), ("long-31", "monthly_customer_invoice_totals"), ("long-64", "n" * 64), ("long-200", "very_long_name_" * 13 + "tail"),
+    ("only-dquote", '"'), ("only-backtick", "`"), ("trailing-dquote", 'ab"'), ("newline", "a\nb"),
 ]
 
 
 def random_name(rnd):
-    n = rnd.randint(1, 8)
+    n = rnd.randint(1, 8) if rnd.random() < 0.9 else rnd.randint(28, 70)
     atoms = ['"', "`", "'", ".", " ", "\\", "--", "/*", "?", "%s", "$1", ";", ",", "(", ")", "[", "]", "A", "b", "_", "9",
              "é", "列", "\U0001F600", "select", "\n", "\t"]
     return "".join(rnd.choice(atoms) if rnd.random() < 0.6 else chr(rnd.randint(97, 122)) for _ in range(n)) or "x"
